@@ -13,7 +13,13 @@ import (
 )
 
 func init() {
-	core.Register(core.Check{ID: "C17", Level: "exploration", Run: func(c *core.Ctx) { runC17(c); historyPass(c, "C17"); reentrancyPass(c, "C17"); arch386Pass(c, "C17") }})
+	core.Register(core.Check{ID: "C17", Level: "exploration", Run: func(c *core.Ctx) {
+		waitArch := background(func() { arch386Pass(c, "C17") })
+		runC17(c)
+		historyPass(c, "C17")
+		reentrancyPass(c, "C17")
+		waitArch()
+	}})
 }
 
 type c17pt struct {
